@@ -75,7 +75,7 @@ def cli_argv(o, target):
 
 
 TRUTHY = ["true", "1", "yes", "True", "TRUE", "YES", "Yes"]
-FALSY = ["false", "0", "no", "False", "off", "", "FALSE"]
+FALSY = ["false", "0", "no", "False", "off", "", "FALSE", "none", "None", "NONE", "null", "disabled", "No", "OFF", "n", "untrue"]
 
 
 def action_env(o, sep, out_file=None, out_dir=None, samples=None, truth="true", falsy="false"):
@@ -577,16 +577,17 @@ for job in jobs:
             obj = PickleMutator(**job["ctor"])
         else:
             obj = Generator(**job["ctor"])
+        gen = obj.generator if job.get("mutator") else obj     # PickleMutator exposes its Generator
         for call in job["calls"]:
             name, args = call[0], call[1:]
             if name == "generate":
-                res.append(obj.generate().hex())
+                res.append(gen.generate().hex())
             elif name == "generate_from_bytes":
-                res.append(obj.generate_from_bytes(bytes.fromhex(args[0])).hex())
+                res.append(gen.generate_from_bytes(bytes.fromhex(args[0])).hex())
             elif name == "set_opcode_range":
-                obj.set_opcode_range(args[0], args[1]); res.append(None)
+                gen.set_opcode_range(args[0], args[1]); res.append(None)
             elif name == "reset":
-                obj.reset(); res.append(None)
+                (obj if hasattr(obj, "reset") else gen).reset(); res.append(None)
             elif name == "mutate":
                 res.append(obj.mutate(bytes.fromhex(args[0]), args[1]).hex())
     except Exception as e:
@@ -673,6 +674,14 @@ def python_jobs(rng, n_random, mutator_jobs=True):
         for p in range(6):
             # a call whose size limit cannot be met, then ordinary calls on the same mutator
             mjobs.append({"mutator": True, "ctor": {"protocol": p}, "calls": [["mutate", inputs[3], 10000], ["mutate", inputs[4], 16], ["mutate", inputs[3], 10000], ["mutate", inputs[4], 8], ["mutate", inputs[4], 1 << 20]]})
+        # several PickleMutator objects with the same constructor arguments in one process: what one
+        # of them is told (set_opcode_range through its generator) is nobody else's business
+        for p in range(6):
+            for ctor in ({"protocol": p, "seed": 90 + p}, {"protocol": p}):
+                mjobs.append({"mutator": True, "ctor": dict(ctor), "calls": [["set_opcode_range", 5, 10], ["mutate", inputs[3], 1 << 20]]})
+                mjobs.append({"mutator": True, "ctor": dict(ctor), "calls": [["mutate", inputs[3], 1 << 20], ["generate_from_bytes", inputs[4]]]})
+                mjobs.append({"mutator": True, "ctor": dict(ctor), "calls": [["set_opcode_range", 100, 130], ["generate_from_bytes", inputs[3]], ["mutate", inputs[4], 1 << 20]]})
+            mjobs.append({"mutator": True, "ctor": {"protocol": p, "seed": 90 + p}, "calls": [["generate"], ["generate"]]})
     return jobs, mjobs
 
 
